@@ -448,8 +448,14 @@ class ModuleFinder:
         return parent_path.name
 
 
-_re_pkgresources = re.compile(r"(?:__import__\([\"']pkg_resources[\"']\).declare_namespace\(__name__\))")
-_re_pkgutil = re.compile(r"(?:__path__ = __import__\([\"']pkgutil[\"']\).extend_path\(__path__, __name__\))")
+# The declarations, as the documentation of `pkg_resources` and `pkgutil` spell them:
+# through `__import__(...)`, through the imported module, or (pkgutil) through the imported function.
+_re_pkgresources = re.compile(
+    r"(?:(?:__import__\([\"']pkg_resources[\"']\)|\bpkg_resources)\.declare_namespace\(__name__\))",
+)
+_re_pkgutil = re.compile(
+    r"(?:__path__ = (?:(?:__import__\([\"']pkgutil[\"']\)|\bpkgutil)\.)?extend_path\(__path__, __name__\))",
+)
 _re_import_line = re.compile(r"^import[ \t]+\w+$")
 
 
